@@ -102,10 +102,11 @@ let step_checks (recv : eobs) (op : Hist.op) (out : eobs option) : (string * boo
       let ind = Stdlib.List.concat (Stdlib.List.init (int_of_z lvl) (fun _ -> d.Options.o_indent)) in
       [("C07", Layout.guard_C07 cls t d Z0, ck (fun r -> r.text = Select.apply_expected (fun _ l -> [ind @ l]) t sep d.Options.o_notrailing));
        c18_valid; keeps]
-  | Hist.OTwoCols (pos, l, r, gap, w, _, _, o) ->
+  | Hist.OTwoCols (pos, l, r, gap, w, m, ex, o) ->
     let d = dflt o in
+    let hint = (match Ops.two_col_widths w gap m ex with ((_, lw), _) -> lw) in
     [("C14", Blocks.guard_C14 cls t l r d.Options.o_linesep gap w,
-      ck (fun x -> Blocks.check_C14 cls t pos l r gap w d.Options.o_linesep d.Options.o_notrailing x.text));
+      ck (fun x -> Blocks.check_C14 cls hint t pos l r gap w d.Options.o_linesep d.Options.o_notrailing x.text));
      ("C18", Utf8.valid_utf8 t && Utf8.valid_utf8 l && Utf8.valid_utf8 r && int_of_z gap >= 0, ck (fun x -> Utf8.valid_utf8 x.text)); keeps]
   | Hist.ODefTable (pos, defs, w, o) ->
     let d = dflt o in
